@@ -1,6 +1,17 @@
 //verif:dir fw/fw
 package fw
 
+import (
+	"time"
+
+	"github.com/named-data/ndnd/fw/core"
+	"github.com/named-data/ndnd/fw/defn"
+	"github.com/named-data/ndnd/fw/dispatch"
+	"github.com/named-data/ndnd/fw/table"
+	enc "github.com/named-data/ndnd/std/encoding"
+	spec "github.com/named-data/ndnd/std/ndn/spec_2022"
+)
+
 // C02 uses the forwarding rig of ../C01/fwrig.go (Interest-side obligations).
 func VerifC02_FwHistory() { verifFwHistory("C02", false) }
 
@@ -16,3 +27,85 @@ func VerifC02_Script_IIII() { verifFwScript("C02", false, []string{"IIII"}) }
 
 // three Interests over three faces (two downstreams and the upstream): loops through a second downstream
 func VerifC02_Script_III() { verifFwScript("C02", false, []string{"III"}) }
+
+// Forwarding hints and the producer region: one Interest /n/x carrying 1..3 delegations chosen from a foreign
+// delegation with a route (/h), a foreign one without a route (/q) and one inside the producer region (/r/x, when
+// the region /r is configured).  The Interest is looked up under its own name if any delegation is inside the
+// producer region (in any position) or if it has no hint, otherwise under the first delegation; it leaves on a next
+// hop of that entry only.
+func VerifC02_ForwardingHint() {
+	cfg := core.DefaultConfig()
+	cfg.Tables.ContentStore.Admit, cfg.Tables.ContentStore.Serve = false, false
+	core.LoadConfig(cfg, "")
+	table.Configure()
+	Configure()
+	table.CreateFIBTable("nametree")
+	mk := func(s string) enc.Name { n, _ := enc.NameFromStr(s); return n }
+	region := verifBool("region")
+	if region {
+		table.NetworkRegion.Add(mk("/r"))
+	}
+	if verifBool("multicast") {
+		table.FibStrategyTable.SetStrategyEnc(enc.Name{}, mk("/localhost/nfd/strategy/multicast/v=1"))
+	}
+	th := NewThread(0)
+	var log []verifSend
+	for i := 1; i <= 5; i++ {
+		f := &verifFace{id: uint64(i), scope: defn.NonLocal, link: defn.PointToPoint, log: &log}
+		dispatch.AddFace(f.id, f)
+	}
+	// distinct next hops for the Interest name and for each delegation
+	table.FibStrategyTable.InsertNextHopEnc(mk("/n"), 2, 1)
+	table.FibStrategyTable.InsertNextHopEnc(mk("/h"), 3, 1)
+	table.FibStrategyTable.InsertNextHopEnc(mk("/r"), 4, 1)
+	table.FibStrategyTable.InsertNextHopEnc(mk("/h2"), 5, 1)
+	delegs := []enc.Name{mk("/h"), mk("/q"), mk("/r/x"), mk("/h2")}
+	nh := verifChoice("nhints", 4) // 0..3 delegations
+	var hints []enc.Name
+	for i := 0; i < nh; i++ {
+		hints = append(hints, delegs[verifChoice("deleg", len(delegs))])
+	}
+	name := mk("/n/x")
+	nonce := uint32(7)
+	lt := 4 * time.Second
+	in := uint64(1)
+	i := &spec.Interest{NameV: name, NonceV: &nonce, InterestLifetimeV: &lt}
+	if nh > 0 {
+		i.ForwardingHintV = &spec.Links{Names: hints}
+	}
+	pkt := &defn.Pkt{Name: name, L3: &spec.Packet{Interest: i}, Raw: []byte{0x05, 0x00}, IncomingFaceID: &in}
+	verifNoPanic("C02/hint/interest-no-panic", func() { th.processIncomingInterest(pkt) })
+	// expected lookup name
+	lookup := name
+	if nh > 0 {
+		reaching := false
+		for _, h := range hints {
+			if region && mk("/r").IsPrefix(h) {
+				reaching = true
+			}
+		}
+		if !reaching {
+			lookup = hints[0]
+		}
+	}
+	want := uint64(0) // 0: no route, nothing may be sent
+	switch {
+	case mk("/n").IsPrefix(lookup):
+		want = 2
+	case mk("/h").IsPrefix(lookup):
+		want = 3
+	case mk("/r").IsPrefix(lookup):
+		want = 4
+	case mk("/h2").IsPrefix(lookup):
+		want = 5
+	}
+	for _, s := range log {
+		verifAssert(!s.isData && s.face == want, "C02/hint/interest-leaves-only-on-a-next-hop-of-the-entry-for-its-name-or-hint")
+	}
+	if want != 0 {
+		verifAssert(len(log) == 1, "C02/hint/first-interest-with-a-usable-next-hop-is-forwarded-once")
+	} else {
+		verifAssert(len(log) == 0, "C02/hint/interest-leaves-only-on-a-next-hop-of-the-entry-for-its-name-or-hint")
+	}
+	verifObserve("sends", len(log))
+}
